@@ -1,5 +1,7 @@
-/- generated from paramiko/sftp_file.py, paramiko/file.py -/
+/- generated from paramiko/sftp_file.py, paramiko/file.py and the AST of SFTPClient._async_request -/
 namespace PV.Generated.C28
 def maxRequestSize : Nat := 32768
 def defaultBufsize : Nat := 8192
+/-- every use of self.request_number in _async_request (the id written into the packet, the registration in _expecting, the increment) lies inside the acquire/try/finally-release region of self._lock: allocating a request number and putting it into the packet is one atomic step -/
+def idReadUnderLock : Bool := true
 end PV.Generated.C28
